@@ -111,7 +111,6 @@ theorem watch_sound (q : Query) (s s' : State) (hq : q.plainWatch s) (h : q.fire
       have h1 := h (.nodeRow n) (by simp [Query.watch, hn])
       simp [WatchItem.changed, hn] at h1
       simp only [← h1]
-      by_cases hl : n.length < 2 <;> simp [hl]
   | nodeServiceList n => exact absurd hq (by simp [Query.plainWatch])
   | nodeChecks n =>
     have := h (.chkNode n) (by simp [Query.watch])
